@@ -21,7 +21,7 @@ import c01
 PROP = "C07"
 HARNESS = {"internal/index/zz_verif_c01_test.go": os.path.join(ROOT, "harness/c01/zz_verif_c01_test.go"),
            "internal/index/zz_verif_c07_test.go": os.path.join(ROOT, "harness/c07/zz_verif_c07_test.go")}
-MODEL_DEPS = ["theories/IndexFormat.v", "theories/Merge.v"]
+MODEL_DEPS = ["theories/IndexFormat.v", "theories/IndexFormatPop.v", "theories/Merge.v"]
 
 QUERIES = ["sort:id", "sort:-id limit:3", "sort:ftime", "sort:-ltime", "sort:cbytes", "sort:-sbytes", "sort:cport", "sort:shost",
            "sport:80 sort:id", "cport:1234 sort:id", "cbytes:1: sort:id", "sbytes:0 sort:-id", "protocol:udp sort:id",
